@@ -159,6 +159,8 @@ def run(ctx) -> None:
   ctx.rule('R3', 'pipeline: copy+validate first, warpers in order / reverse order, NaN remover after NaN stages', 4)
   ctx.rule('R4', 'infeasible entries get nanmin - (positive term), assigned before the shift', 1)
   ctx.rule('R5', 'stateful warpers are not shared by list multiplication', 1)
+  ctx.rule('R6', 'warp() selects its branches with exact comparisons (no isclose/allclose/rounding in branch conditions)', 8)
+  ctx.rule('R7', 'state kept by warp() for unwarp() is assigned on every path of warp()', 1)
   mi = ctx.index.module_of_file(OW)
   # summary of helper(s): functions whose every return derives from a fresh producer applied first
   fresh_callees: Set[str] = set()
@@ -199,6 +201,92 @@ def run(ctx) -> None:
   r3_pipeline(ctx, mi)
   r4_infeasible(ctx, mi)
   r5_sharing(ctx)
+  r6_exact_branches(ctx, mi)
+  r7_warp_state(ctx, mi)
+
+
+# ----------------------------------------------------------------------- R6
+_TOLERANCE_CALLS = {'isclose', 'allclose', 'approx', 'array_equal_nan', 'round', 'around', 'rint'}
+
+
+def r6_exact_branches(ctx, mi) -> None:
+  """warp() never decides a branch with a tolerance: distinct observed labels must stay distinct, so a test such as
+  isclose(max, min) that sends 'nearly equal' labels down a constant branch ties values whose spread is small relative
+  to their magnitude."""
+  n = 0
+  for ci in mi.classes.values():
+    m = ci.methods.get('warp')
+    if m is None or len(m.params) < 2:
+      continue
+    n += 1
+    hits = []
+    for x in ast.walk(m.node):
+      t = x.test if isinstance(x, (ast.If, ast.IfExp, ast.While)) else None
+      if t is None:
+        continue
+      for c in ast.walk(t):
+        if isinstance(c, ast.Call) and (dotted(c.func) or '').rsplit('.', 1)[-1] in _TOLERANCE_CALLS:
+          hits.append(c)
+    ctx.check(not hits, 'R6', f'{ci.name}.warp: exact branch conditions', hits[0] if hits else m.node,
+              'no tolerance-based comparison selects a branch',
+              f'`{unparse(hits[0], 60) if hits else ""}` selects a branch of warp(): labels that differ by less than the tolerance (relative '
+              '1e-5 by default) are treated as equal and mapped to one value - distinct observed values no longer stay distinct',
+              construct=f'{ci.name}.warp:tolerance', func=m.qualname)
+  if n < 8:
+    raise AnalysisError(f'only {n} warp methods found')
+
+
+# ----------------------------------------------------------------------- R7
+def r7_warp_state(ctx, mi) -> None:
+  """State that warp() leaves for unwarp() is rewritten by *every* warp() call: an attribute assigned on some paths
+  only keeps the value of an earlier call (pipelines are reused across a study), and unwarp() then undoes the wrong warp."""
+  n = 0
+  for ci in mi.classes.values():
+    m = ci.methods.get('warp')
+    if m is None or len(m.params) < 2:
+      continue
+    assigned = {}
+    for x in ast.walk(m.node):
+      if isinstance(x, ast.Assign):
+        for t in x.targets:
+          d = dotted(t)
+          if d and d.startswith('self.') and d.count('.') == 1:
+            assigned.setdefault(d[5:], x)
+    if not assigned:
+      continue
+    un = ci.methods.get('unwarp')
+    read_in_unwarp = {d[5:] for x in ast.walk(un.node) if isinstance(x, ast.Attribute) for d in [dotted(x) or '']
+                      if d.startswith('self.') and d.count('.') == 1} if un is not None else set()
+    g = cfgmod.CFG(m.node)
+
+    def transfer(node, st, succ, lab):
+      if node.kind == 'stmt' and isinstance(node.ast, ast.Assign):
+        new = set(st)
+        for t in node.ast.targets:
+          d = dotted(t)
+          if d and d.startswith('self.') and d.count('.') == 1:
+            new.add(d[5:])
+        return frozenset(new)
+      return st
+    state = cfgmod.forward(g, frozenset(), transfer, lambda a, b: a & b)
+    for attr, where_ in sorted(assigned.items()):
+      if attr not in read_in_unwarp:
+        continue
+      n += 1
+      missing = []
+      for p_, lab in g.exit.preds:
+        if p_.id not in state:
+          continue
+        out = transfer(p_, state[p_.id], None, lab)
+        if attr not in out:
+          missing.append(p_)
+      ctx.check(not missing, 'R7', f'{ci.name}.warp sets self.{attr} on every path', where_,
+                'assigned before every return of warp()',
+                f'self.{attr} is read by unwarp() but warp() returns at line {missing[0].lineno if missing else 0} without assigning it: '
+                'after a warp() call that takes this path, unwarp() still uses the value left by an earlier call on different labels',
+                construct=f'{ci.name}.{attr}:stale', func=m.qualname)
+  if n == 0:
+    ctx.ok('R7', 'no warp() keeps state for unwarp() on a subset of paths', mi.tree, 'nothing to check')
 
 
 def argsort_misuse(fn: ast.AST):
